@@ -24,7 +24,7 @@ CLAIMED = {
     "C16": W("The grid of documented keys x boundary values x {file, environment} is enumerated completely; each point boots the real main() in the simulator and reads the effective values off the simulated machine (addresses bound, threads spawned, TCP listeners, timer periods, largest batch of a 200-request burst, failing-reply share, announced key) cross-checked with the start-up log; out-of-range, missing, unknown => the process must end non-zero before any socket is bound.", "5 (C16)", "deterministic simulation: exhaustive configuration grid, effective settings observed at the simulated kernel"),
     "C17": W("Seeded deterministic simulation (W and F modes): the kernel tap (what each worker received and answered per source address, bytes, failed sends, accepted health connections) is compared with recorder state + pushed snapshots (W, via hook H7 and the real stats queue) and with the real Reporter's persisted CSV files (F). Claimed part: system-level conservation; enumeration of recorder call sequences on bare objects is not claimed.", "5 (C17)", "deterministic simulation with fault injection: conservation between kernel tap, worker recorders, stats queue and reporter output"),
     "C18": W("Seeded deterministic simulation (F mode): real main() with num_workers {1,2,4,8,16} on one REUSEPORT group, 1-64 closed-loop clients, seeded schedule strategies (uniform/sticky/starve-one), kernel distribution (flow hash/arbitrary), service-time factor, and delay/duplication/stall faults during start-up and early load; oracle: exactly-once + validity under the single long-term key at both the server boundary and each client, no worker dies, every request sent after faults stop is answered within 1 simulated second.", "5 (C18)", "deterministic simulation with fault injection: seeded search over thread schedules and kernel datagram distribution"),
-    "C19": W("Seeded deterministic simulation (F mode): for baselines (workers {1,4,16} x client_stats off/on x load idle/closed-loop/flood) the scheduling points after all workers serve are counted and SIGINT/SIGTERM is delivered at point k (40 stratified per baseline quick, 600 or all thorough); oracle: exit status 0 within 3 simulated seconds of the handler, no panic output, every response emitted before exit verifies. The flood verdict is a recorded known finding.", "5 (C19)", "deterministic simulation with fault injection: signal delivery enumerated over the scheduling points of baseline executions"),
+    "C19": W("Seeded deterministic simulation (F mode): for baselines (workers {1,4,16} x client_stats off/on x load idle/closed-loop/flood) the scheduling points after all workers serve are counted and SIGINT/SIGTERM is delivered at point k (40 stratified per baseline quick, 600 or all thorough); oracle: exit status 0 within 3 simulated seconds of the handler, no panic output, every response emitted before exit verifies. Loads: idle, long idle (20-60 simulated s), closed-loop, open-loop flood of a slow worker.", "5 (C19)", "deterministic simulation with fault injection: signal delivery enumerated over the scheduling points of baseline executions"),
     "C20": W("Seeded deterministic simulation (W and F modes) with per-run random seeds, log levels Off..Trace, valid/invalid/greased traffic, file and environment sources, start-ups that fail validation, restart + signal: every datagram, log record, stdout/stderr byte, TCP byte and written file is scanned for the seed, the clamped scalar and the unclamped SHA-512 half in raw/hex/base64 forms. The same monitor is on inside every other W/F check.", "5 (C20)", "deterministic simulation: always-on secret-scan monitor over everything the simulated server emits"),
 }
 
